@@ -96,7 +96,7 @@ fn real_main() {
                 "pool" => pool::gen_case(&mut crng),
                 "containers" => containers::gen_case(&mut crng),
                 "snapshot" => snapshot::gen_case(&mut crng),
-                "solve" => { let k = if crng.chance(1, 12) { gen::Kind::Tower } else { *crng.pick(&[gen::Kind::General, gen::Kind::General, gen::Kind::Tight, gen::Kind::Tight, gen::Kind::Hints, gen::Kind::CycleMerge]) }; solve::gen_case(&mut crng, k) }
+                "solve" => { let k = if crng.chance(1, 12) { gen::Kind::Tower } else if crng.chance(1, 40) { gen::Kind::Gadgets } else { *crng.pick(&[gen::Kind::General, gen::Kind::General, gen::Kind::Tight, gen::Kind::Tight, gen::Kind::Hints, gen::Kind::CycleMerge]) }; solve::gen_case(&mut crng, k) }
                 "soft" => solve::gen_case(&mut crng, gen::Kind::Soft),
                 "lazy" => solve::gen_case(&mut crng, gen::Kind::Lazy),
                 "hints" => solve::gen_case(&mut crng, gen::Kind::Hints),
